@@ -3,6 +3,7 @@
 package storeops
 
 import (
+	"github.com/sergeii/swat4master/internal/persistence/redis/redislock"
 	"github.com/redis/go-redis/v9"
 	"github.com/sergeii/swat4master/internal/core/entities/details"
 	"encoding/hex"
@@ -192,6 +193,9 @@ func ErrClass(err error) string {
 	// and so shows up as a disagreement with the model
 	case errors.Is(err, redis.Nil):
 		return "err:locklost"
+	case errors.Is(err, redislock.ErrNotAcquired):
+		// the repository gave up after its attempts and says so with the lock manager's own sentinel
+		return "err:exhausted"
 	case errors.Unwrap(err) == nil && mentionsLocking(err.Error()):
 		return "err:exhausted"
 	}
